@@ -336,6 +336,7 @@ def run_one(scn, prefix=(), snap=False, drain=True, max_iter=4000):
         built = Built(scn)
         ex.built = built
         task_job = {}
+        creq = {}
 
         def on_iter():
             # record the job of every new `wrapped` task (ground truth for
@@ -345,6 +346,13 @@ def run_one(scn, prefix=(), snap=False, drain=True, max_iter=4000):
                 task_job[t] = j
                 if j is not None:
                     log('sched', j.vname, t._vidx)
+            # ground truth for "cancellation requested": Task.cancelling()
+            for t, j in task_job.items():
+                if j is not None:
+                    n = t.cancelling()
+                    if n > creq.get(t, 0):
+                        creq[t] = n
+                        log('creq', j.vname, n)
             if snap:
                 ctx.snaps.append((len(ctx.log), loop.vtime, loop.iter,
                                   _snap(built)))
